@@ -20,7 +20,7 @@ type caseC13cmp struct {
 
 // pairGen draws scalar pairs by relation class.
 func pairGen(t *rapid.T) caseC13cmp {
-	rel := rapid.SampledFrom([]string{"equal", "adjacent", "canon-limb", "mont-limb", "random", "equal-other-domain"}).Draw(t, "rel")
+	rel := rapid.SampledFrom([]string{"equal", "adjacent", "canon-limb", "mont-limb", "random", "equal-other-domain", "canon-words", "canon-words"}).Draw(t, "rel")
 	s := SVGen().Draw(t, "s")
 	c := caseC13cmp{S: s, Rel: rel}
 	switch rel {
@@ -39,6 +39,14 @@ func pairGen(t *rapid.T) caseC13cmp {
 		v := s.Value()
 		d := int64(rapid.SampledFrom([]int{-1, 1}).Draw(t, "d"))
 		v.Mod(v.Add(v, big.NewInt(d)), ref.N)
+		c.T = SV{Hex: gen.H(v)}
+	case "canon-words":
+		// t agrees with s in some words and differs in several others (either direction)
+		wb := uint(rapid.SampledFrom([]int{64, 32}).Draw(t, "wb"))
+		v := gen.PerturbWords(t, s.Value(), wb)
+		if v.Cmp(ref.N) >= 0 {
+			v.Mod(v, ref.N)
+		}
 		c.T = SV{Hex: gen.H(v)}
 	case "canon-limb", "mont-limb":
 		var base *big.Int
@@ -99,7 +107,7 @@ var c13cmp = gen.Register(&gen.Check[caseC13cmp]{
 		}
 		return out
 	},
-	Required: []string{"rel:equal", "rel:adjacent", "rel:canon-limb", "rel:mont-limb", "rel:random", "s<t", "s>t"},
+	Required: []string{"rel:canon-words", "rel:equal", "rel:adjacent", "rel:canon-limb", "rel:mont-limb", "rel:random", "s<t", "s>t"},
 	Run: func(c caseC13cmp, o *gen.Obs) error {
 		vs, vt := c.S.Value(), c.T.Value()
 		s, t := c.S.Build(), c.T.Build()
